@@ -51,6 +51,7 @@ type OpSpec struct {
 	Silent bool   `json:"silent,omitempty"`
 	TZ     bool   `json:"tz,omitempty"`   // exec.WithTZ
 	Zone   string `json:"zone,omitempty"` // "" (no zone in ctx), "UTC", "+05:30", "America/New_York", ...
+	TZDerive string `json:"tzderive,omitempty"` // derive the call's zone context from the shared base context of THIS zone (a per-request zone over an app-wide default)
 	TZOuter bool  `json:"tzouter,omitempty"` // zone carried by a private ContextWithTZ wrapper around the call's context instead of by the scenario's shared base context
 	Ctx    string `json:"ctx,omitempty"`  // "" = stub; "cancel", "deadline", "parent", "cause"
 	Fault  *Fault `json:"fault,omitempty"`
